@@ -282,3 +282,30 @@ func respArgs(v *RespValue) []string {
 	}
 	return out
 }
+
+// VerifClientState is the observable state of a backend client.
+type VerifClientState struct {
+	Pending, Processing int
+	Quit, Done          bool
+}
+
+// VerifClientStateOf returns the queue lengths and latches of a *client
+// passed to a hook point.
+func VerifClientStateOf(obj interface{}) (VerifClientState, bool) {
+	c, ok := obj.(*client)
+	if !ok || c == nil {
+		return VerifClientState{}, false
+	}
+	st := VerifClientState{Pending: len(c.pendingReqs), Processing: len(c.processingReqs)}
+	select {
+	case <-c.quit:
+		st.Quit = true
+	default:
+	}
+	select {
+	case <-c.done:
+		st.Done = true
+	default:
+	}
+	return st, true
+}
